@@ -208,8 +208,6 @@ def explore(ctx):
                     progs.append({'source': src, 'compress': c})
     # ---- every mnemonic x every operand position x every fault kind (systematic, both modes) -------------------------------------
     mf = mnemonic_faults()
-    if ctx.quick():
-        mf = mf[ctx.seed % 3::3]
     for cls, fault in mf:
         lines = ['start:', 'addi x8, x8, 1', fault, 'lw x8, 4(x9)']
         src = '\n'.join(lines) + '\n'
